@@ -30,6 +30,14 @@ CLAIMED = {
             "baseline additivity, modulus scaling, continuity and monotonicity follow as lemmas from the proved C02 "
             "postconditions. Clifford monotonicity and models run through the real registry are bounded and "
             "labelled so.", "3 C13"),
+    "C14": ("proof", "contract-based deductive verification by complete case analysis: the real autosort/check_order/"
+            "available/apply are symbolically executed over lists of symbolic identifiers (distinct members of the "
+            "6-step universe bound the length, so unrolling is complete); every leaf is decided against an "
+            "independently written specification of the order rules",
+            "All 1957 ordered selections (1424 complete ones for autosort) plus lists with an unknown identifier are "
+            "covered exhaustively on the real AST: permutation, validity, idempotence, unchanged valid orders, "
+            "input not modified, check_order/apply accept iff the stated rule holds, unknown identifiers rejected, "
+            "apply restarts from raw data and runs steps in the given order.", "3 C14"),
 }
 
 NOT_APPLICABLE = {
